@@ -182,7 +182,7 @@ def tables_vectors(prop, tier, vec_path, corpus_limit=None):
         spaces.append({"space": "Gen_G well-formed grammars", "vectors": k, "states": g["distinct"]})
         n += k
         k = 0
-        for cid in ("basic", "plus1", "plus2", "look", "modes", "stack", "skipsw", "cmt", "xml", "pas", "dash", "nonl", "nows", "allow", "allow2", "utf"):
+        for cid in ("basic", "plus1", "plus2", "look", "modes", "stack", "skipsw", "cmt", "cmt0", "xml", "pas", "dash", "lc2", "bc2", "nonl", "nows", "allow", "allow2", "allowst", "allowst2", "utf"):
             part = vec_path + ".s"
             g = tlc_gen("Scanner", {"CfgId": cid, "MaxText": 0}, ["Emit"], 1, part, spec="Spec", run_prefix=f"{prop}_{tier}_s{cid}", no_shard_consts=True)
             for l in open(part):
